@@ -19,6 +19,7 @@ CheckOf(e) ==
   CASE e.e = "Call" -> CallCheck(e)
     [] e.e = "Reply" -> ReplyCheck(e)
     [] e.e = "Read" -> ReadCheck(e)
+    [] e.e = "Write" -> WriteCheck(e)
     [] OTHER -> "harness.unknownEvent"
 
 TNext == /\ verdict = "ok"
